@@ -394,3 +394,10 @@ V("C15", "get_data_subindex_after_translation", "violation", ("andes/variables/d
 V("C15", "benign_output_addr_loop_form", "silent", ("andes/models/misc/output.py", "        output_addr = np.array([column[int(ad)] for ad in addr if int(ad) in column], dtype=int)\n", "        cols = []\n        for ad in addr:\n            if int(ad) in column:\n                cols.append(column[int(ad)])\n        output_addr = np.array(cols, dtype=int)\n"))
 V("C08", "sweep_relies_on_lazy_jacobian", "violation", (EIG, "            if not self._pre_check():\n                logger.error(\"Parameter sweep stopped at round %d.\", count)\n                return results\n", "            self.system.TDS.init()\n            self.system.TDS.itm_step()\n"), rule="C08.fresh")
 V("C08", "benign_sweep_explicit_jupdate", "silent", (EIG, "            if not self._pre_check():\n                logger.error(\"Parameter sweep stopped at round %d.\", count)\n                return results\n", "            if not self._pre_check():\n                logger.error(\"Parameter sweep stopped at round %d.\", count)\n                return results\n            self.system.j_update(self.system.exist.pflow_tds)\n"))
+V("C17", "nk_noconvergence_not_handled", "violation", (PFLOW, "        except NoConvergence:\n            logger.error('Newton-Krylov iterations did not converge.')\n            self.converged = False\n\n", ""), rule="C17.success")
+V("C17", "nk_noconvergence_handler_reraises", "violation", (PFLOW, "            logger.error('Newton-Krylov iterations did not converge.')\n            self.converged = False\n", "            logger.error('Newton-Krylov iterations did not converge.')\n            raise\n"), rule="C17.success")
+V("C17", "benign_nk_one_handler_for_both", "silent", (PFLOW, "        except NoConvergence:\n            logger.error('Newton-Krylov iterations did not converge.')\n            self.converged = False\n\n        except ValueError as e:", "        except (NoConvergence, ValueError) as e:"))
+V("C08", "sweep_keeps_old_statistics", "violation", (EIG, "            self.mu, self.pfactors, self.N, self.W = self.calc_pfactor()\n            self._store_stats()\n            mu = self.mu\n", "            mu, N = self.calc_eig(self.As)\n            self.mu, self.N = mu, N\n"), rule="C08.partition")
+V("C08", "sweep_counts_before_new_spectrum", "violation", (EIG, "            self.mu, self.pfactors, self.N, self.W = self.calc_pfactor()\n            self._store_stats()\n            mu = self.mu\n", "            self._store_stats()\n            self.mu, self.pfactors, self.N, self.W = self.calc_pfactor()\n            mu = self.mu\n"), rule="C08.partition")
+V("C14", "views_repointed_for_unaddressed_models", "violation", (SYSTEM, "            if mdl.flags.address is False:\n                continue\n\n            for var in mdl.cache.vars_int.values():\n                var.set_arrays(self.dae, inplace=inplace, alloc=alloc)\n", "            for var in mdl.cache.vars_int.values():\n                var.set_arrays(self.dae, inplace=inplace, alloc=alloc)\n"), rule="C14.snapshot")
+V("C14", "benign_views_guard_merged", "silent", (SYSTEM, "            if mdl.n == 0:\n                continue\n\n            # variables without addresses (e.g., of dynamic models before the\n            # time-domain initialization) have nothing to point to yet\n            if mdl.flags.address is False:\n                continue\n\n            for var in mdl.cache.vars_int.values():\n                var.set_arrays(self.dae, inplace=inplace, alloc=alloc)\n", "            if mdl.n == 0 or not mdl.flags.address:\n                continue\n\n            for var in mdl.cache.vars_int.values():\n                var.set_arrays(self.dae, inplace=inplace, alloc=alloc)\n"))
